@@ -20,7 +20,7 @@ EXPLANATION = ('Taint of the option word (every use of the parameter along the l
                'call), sibling rules between the eager and lazy glyph loaders and between the file and callback faces (who may call '
                'the two Loader producers, who may write or read the cache cells), and the shared cmap routing rules.  That two '
                'faces produce identical segments is a run-time fact; these rules are the structural conditions for it.')
-FLOORS = {'OPTFLOW': 4, 'LOADERSIB': 4, 'LAZYACCESS': 8, 'FILESIB': 1, 'SELECTORS': 12, 'PLANEROUTE': 8}
+FLOORS = {'OPTFLOW': 4, 'LOADERSIB': 5, 'LAZYACCESS': 8, 'FILESIB': 1, 'SELECTORS': 12, 'PLANEROUTE': 8}
 
 OPT_CHAIN = [('gr_make_face_with_ops', 'faceOptions'), ('(anonymous namespace)::load_face', 'options'),
              ('graphite2::Face::readGlyphs', 'faceOptions'), ('graphite2::GlyphCache::GlyphCache', 'face_options')]
@@ -357,6 +357,73 @@ def boxparity(run, fx):
             run.held('LOADERSIB', 'lazy box condition', fn.loc(e), 'box creation does not depend on per-glyph loader output (%s)' % sorted(outs.values()))
 
 
+def boxsize(run, fx):
+    """LOADERSIB, byte budget of the collision boxes: a glyph's box record is a GlyphBox header followed by TWO rectangles per sub-box
+    (Loader::read_box stores `_subs[2*k + boundary]` for boundary 0, 1).  Three places must agree on that cost per sub-box, as linear forms
+    with sizeof folded: the pool the preloading constructor allocates (per accumulated sub-box), the record the lazy path allocates, and
+    the distance read_box advances to the next record; and read_box's store loop writes exactly that many rectangles."""
+    from . import linear
+    from .cfg import int_type
+    ctor = [f for f in fx.fns_named('graphite2::GlyphCache::GlyphCache') if not f.f.get('implicit')][0]
+    lazy = fx.one('graphite2::GlyphCache::glyph')
+    rb = fx.one('graphite2::GlyphCache::Loader::read_box')
+    inst = 'box records: two rectangles per sub-box at every site'
+
+    def alloc_form(fn):
+        out = []
+        for e in calls_in(fn):
+            if (e.get('fq') or '').startswith('graphite2::gralloc') and e.get('args'):
+                t, c = linear.lin(fn, e['args'][0], through_unsigned=True)
+                if any('numsubs' in k_ or 'num' in k_.lower() for k_ in t) and c >= 0:
+                    out.append((e, t, c))
+        return out
+    rect = 16
+    hdr = None
+    rec = fx.raw['records'].get('graphite2::GlyphBox')
+    probs, seen = [], []
+    for fn, what in ((ctor, 'preload pool'), (lazy, 'lazy record')):
+        forms = alloc_form(fn)
+        subs = [(e, t, c) for e, t, c in forms if any('numsubs' in k_ for k_ in t)]
+        if len(subs) != 1:
+            run.broken('LOADERSIB', inst, '%s: expected one gralloc sized by the sub-box count in %s, found %d' % (what, fn.q, len(subs)), fn.where())
+            return
+        e, t, c = subs[0]
+        coef = [v for k_, v in t.items() if 'numsubs' in k_]
+        seen.append((what, coef[0], fn.loc(e)))
+    # read_box: the store loop `i < K * <count>`, one Rect per iteration through addSubBox; then the advance to the next record
+    loopk, atom = None, None
+    for b in rb.blocks:
+        c_ = rb.term_cond(b)
+        if c_ is None:
+            continue
+        c_ = rb.strip_all_casts(c_)
+        if c_['k'] == 'BinaryOperator' and c_['op'] == '<':
+            t, c0 = linear.lin(rb, c_['c'][1], through_unsigned=True)
+            if len(t) == 1 and c0 == 0 and any((x.get('fq') or '').endswith('GlyphBox::addSubBox') for b2 in rb.reachable_from(b) for x in rb.blocks[b2]['el']):
+                atom, loopk = list(t.items())[0]
+    if loopk is None:
+        run.broken('LOADERSIB', inst, 'read_box: the loop that stores the sub-box rectangles (i < k * count) was not recognised', rb.where())
+        return
+    adv = None
+    for _, e in rb.elements():
+        if e['k'] == 'ReturnStmt' and e.get('c') and not rb.is_null(e['c'][0]):
+            t, c = linear.lin(rb, rb.strip_all_casts(e['c'][0]), through_unsigned=True)
+            if atom in t:
+                adv = (t[atom], c, rb.loc(e))
+    if adv is None:
+        run.broken('LOADERSIB', inst, 'read_box: the pointer to the next record (curr + header + per-sub-box bytes) was not recognised', rb.where())
+        return
+    seen.append(('read_box advance', adv[0], adv[2]))
+    want = loopk * rect
+    bad = [(w, c_, loc) for w, c_, loc in seen if c_ != want]
+    if bad:
+        w, c_, loc = bad[0]
+        run.violated('LOADERSIB', inst, loc, 'read_box stores %d rectangles (%d bytes) per sub-box, but the %s counts %d bytes per sub-box: %s'
+                     % (loopk, want, w, c_, 'the records overlap / overflow their allocation' if c_ < want else 'the sites disagree on the record layout'))
+    else:
+        run.held('LOADERSIB', inst, rb.where(), '%d bytes per sub-box (%d rectangles) in the preload pool, the lazy record and the advance of read_box' % (want, loopk))
+
+
 def run(run):
     fx = run.facts('Q0')
     opssize(run, fx)
@@ -364,9 +431,14 @@ def run(run):
     optflow(run, fx)
     optentry(run, fx)
     loadersib(run, fx)
+    try:
+        boxsize(run, fx)
+    except AnalysisBroken as ex:
+        run.broken('LOADERSIB', 'box records: two rectangles per sub-box at every site', str(ex))
     lazyaccess(run, fx)
     filesib(run, fx)
     c13.selectors(run, fx)
     c13.planeroute(run, fx)
+    c13.agree(run, fx)
     c13.segsearch(run, fx)       # the direct cmap searches without a range hint, the cached one with: both must find the same segment
     c13.cmapbound(run, fx)
